@@ -41,8 +41,24 @@ def run(tier):
         by[(r["expect"], min(len(r["prog"]), 4))].append(r)
     log(f"[C18] Zkir exhaustive: {mc['distinct']} states; simulation: {len(rows)} finished programs, "
         f"{len(uniq)} distinct, {len(by)} strata")
+    # directed pipelines (load; one or two unary steps on the value bound last; publish), enumerated exhaustively by TLC:
+    # one program per signature (sequence of operations with their parameters) whose outcome is not a plain type error
+    dr = vlib.run_tlc("Zkir.tla", "Dir_Zkir.cfg", "C18", workers=8, timeout=900)
+    vlib.require_tlc_ok(dr, "Zkir (directed pipelines)")
+    drows = vlib.parse_replay_lines(dr["out"])
+    dsig = collections.defaultdict(list)
+    for r in drows:
+        dsig[(r["expect"], json.dumps([i["op"] for i in r["prog"]], sort_keys=True))].append(r)
+    directed = []
+    for k in sorted(dsig):
+        v = sorted(dsig[k], key=lambda r: json.dumps(r, sort_keys=True))
+        if tier == "thorough":
+            directed += v
+        elif k[0] != "exec_error" or rng.random() < 0.07:
+            directed.append(rng.choice(v))
+    log(f"[C18] directed pipelines: {len(drows)} programs, {len(dsig)} signatures, {len(directed)} replayed")
     per = 45 if tier == "quick" else 500
-    pick = []
+    pick = list(directed)
     for k in sorted(by):
         v = sorted(by[k], key=lambda r: json.dumps(r, sort_keys=True))
         rng.shuffle(v)
@@ -75,6 +91,10 @@ def run(tier):
             if needle in det:
                 tag = t
                 break
+        prog_ops = json.dumps([i["op"] for i in (sc_by_id.get(e["id"]) or {"prog": []})["prog"]])
+        if tag == "other" and e.get("off") == "ok" and e.get("circ") == "sat" and e.get("self_eq_enc") is False \
+                and '{"from_bytes": "JubjubScalar"}' in prog_ops and '"publish"' in prog_ops:
+            tag = "scalar_from_bytes_published"
         key = {"expect": e["expect"], "load": e["load"], "off": e.get("off"), "circ": e.get("circ"),
                "rt_bin": e.get("rt_bin"), "tag": tag}
         rep.violation(key, f"program {e['id']} ({e['nops']} instr): expect={e['expect']} load={e['load']} off={e.get('off')} "
